@@ -107,4 +107,8 @@ def run(chk, tier):
     # "each stored file contains the received data set": the sink replaces whatever was stored under that name before
     from . import shared
     shared.file_create_truncates(chk, fx, "stored-file-replaced")
+    # every data-set fragment the peer sends reaches the store loop: the P-DATA parser accepts every PDV it has the bytes for
+    # (a PDV with no data after its 6-byte header included) -- the cursor budget rule shared with C25/C26/C27
+    shared.parser_availability(chk, fx, "fragments-received")
+    shared.guard_tightness(chk, fx, "fragment-guards-exact")
     chk.undecided.append("content equality of the stored file with the received data set; reassembly of fragments (C26/C27)")
